@@ -1,5 +1,7 @@
 import SoundeventModel.Ops.Common
 import SoundeventModel.Audio
+import SoundeventModel.Audio.FileSys
+import SoundeventModel.History
 namespace SE.Ops.C15
 open Lean SE SE.Audio
 
@@ -54,6 +56,26 @@ def svalJ : Except AErr SVal → Json
       ("exact", boolJ a.exact), ("truthful", boolJ (SVal.truthful (.audio a)))])
   | .ok (.spec r) => valJ (Json.mkObj [("kind", Json.str "spec"), ("nperseg", intJ r.nperseg), ("noverlap", intJ r.noverlap),
       ("time", axisJ r.time), ("freq", axisJ r.freq), ("truthful", boolJ (SVal.truthful (.spec r)))])
+
+/-- one call of a file history (see `SE.Audio.FS.Cmd`) -/
+def getCmd (j : Json) : Except String FS.Cmd := do
+  let p ← fldStr j "p"
+  match ← fldStr j "k" with
+  | "put" =>
+    let (file, ch) ← getFile (← fld j "file")
+    return .put p ⟨file, ch, ← fldNat j "fsr"⟩
+  | "rm" => return .rm p
+  | "from_file" => return .fromFile p (← fldRat j "te")
+  | "load_clip" => return .loadClip ⟨p, ← fldNat j "sr", ← fldRat j "duration"⟩ (← fldRat j "s") (← fldRat j "e")
+  | "load_recording" => return .loadRecording ⟨p, ← fldNat j "sr", ← fldRat j "duration"⟩
+  | k => .error s!"fs_history: unknown call {k}"
+
+def fsOutJ : FS.Out → Json
+  | .done => valJ (Json.str "done")
+  | .notFound => Json.mkObj [("raise", Json.str "notfound")]
+  | .recording r => valJ (Json.mkObj [("sr", natJ r.sr), ("duration", ratJ r.duration)])
+  | .array (.ok r) => timeArrayJ r
+  | .array (.error e) => errJ e
 
 def handle (op : String) (a : Json) : Except String Json := do
   match op with
@@ -132,6 +154,10 @@ def handle (op : String) (a : Json) : Except String Json := do
     let S : Source := ⟨file, ch, ← fldNat a "sr", ← fldRat a "duration"⟩
     let steps ← (← fldArr a "steps").mapM getStep
     return valJ (arrJ ((runSession S steps).map svalJ))
+  | "fs_history" =>
+    -- calls against the one-cell-per-path file system: files rewritten between loads (`FS.exec`)
+    let cmds ← (← fldArr a "steps").mapM getCmd
+    return valJ (arrJ ((History.runS FS.exec FS.empty cmds).map fsOutJ))
   | "signatures" =>
     return valJ (arrJ (signatures.map fun (fn, ps) =>
       Json.mkObj [("fn", Json.str fn), ("params", arrJ (ps.map fun (n, d) => arrJ [Json.str n, Json.str d]))]))
